@@ -156,12 +156,17 @@ fn matches_known<'a>(known: &'a [KnownFinding], i: &IssueRec) -> Option<&'a Know
 // ------------------------------------------------------------------------------------------------
 // worker
 
-// Watchdog (liveness): a case which does not return within a wall-clock budget several orders of magnitude above the
-// normal cost of a case is a livelock / unbounded piece of work inside the code under test. The worker reports the
+// Watchdog (liveness): a case which does not return within a budget several orders of magnitude above the normal cost of a
+// case is a livelock / unbounded piece of work inside the code under test. The budget is *CPU time of the worker process*
+// (a worker executes one case at a time; the library has no lock or channel to block on, so a case which does not return
+// burns CPU): wall time made the verdict depend on the load of the machine - 8 long-tour cases of 9 s each were reported
+// while 12 compilers and 6 other workers shared the 16 cores (an alarm that was mine). A wall-clock budget of 20x remains
+// as a backstop for a case which neither returns nor computes. The worker reports the
 // case in a side file and leaves; the coordinator turns it into a violation ("no-return") and restarts the slice.
 static WATCH_CASE: std::sync::atomic::AtomicU64 = std::sync::atomic::AtomicU64::new(u64::MAX);
 static WATCH_SEED: std::sync::atomic::AtomicU64 = std::sync::atomic::AtomicU64::new(0);
 static WATCH_START_NS: std::sync::atomic::AtomicU64 = std::sync::atomic::AtomicU64::new(0);
+static WATCH_START_CPU_NS: std::sync::atomic::AtomicU64 = std::sync::atomic::AtomicU64::new(0);
 
 pub fn case_limit_s(tier: Tier) -> u64 {
     std::env::var("VSIM_CASE_LIMIT_S").ok().and_then(|s| s.parse().ok()).unwrap_or(match tier {
@@ -177,9 +182,10 @@ pub fn start_watchdog(limit_s: u64, on_hang: impl Fn(u64, u64, u64) + Send + 'st
         std::thread::sleep(std::time::Duration::from_millis(500));
         let case = WATCH_CASE.load(SeqCst);
         if case != u64::MAX {
-            let elapsed = sys::real_now_ns().saturating_sub(WATCH_START_NS.load(SeqCst)) / 1_000_000_000;
-            if elapsed > limit_s && WATCH_CASE.load(SeqCst) == case {
-                on_hang(case, WATCH_SEED.load(SeqCst), elapsed);
+            let wall = sys::real_now_ns().saturating_sub(WATCH_START_NS.load(SeqCst)) / 1_000_000_000;
+            let cpu = sys::cpu_now_ns().saturating_sub(WATCH_START_CPU_NS.load(SeqCst)) / 1_000_000_000;
+            if (cpu > limit_s || wall > limit_s * 20) && WATCH_CASE.load(SeqCst) == case {
+                on_hang(case, WATCH_SEED.load(SeqCst), cpu.max(if wall > limit_s * 20 { wall } else { 0 }));
                 unsafe { libc::_exit(4) };
             }
         }
@@ -190,6 +196,7 @@ pub fn watch_begin(case: u64, seed: u64) {
     use std::sync::atomic::Ordering::SeqCst;
     WATCH_SEED.store(seed, SeqCst);
     WATCH_START_NS.store(sys::real_now_ns(), SeqCst);
+    WATCH_START_CPU_NS.store(sys::cpu_now_ns(), SeqCst);
     WATCH_CASE.store(case, SeqCst);
 }
 
@@ -376,7 +383,7 @@ pub fn check_main(scn: &dyn Scenario, prop_arg: &str, opts: &CheckOptions) -> i3
             // a synthetic record: the case is a violation of the property it was exploring (nothing came back)
             records.entry(i).or_insert_with(|| {
                 json!({"i": i, "seed": seed, "log": "hung", "evals": 1, "num": {"liveness.cases_without_return": 1},
-                    "issues": [{"prop": prop, "rule": "no-return", "sig": "", "msg": format!("the case did not return within {secs} s of wall time (normal cost of a case: milliseconds): livelock or unbounded work in the code under test")}]})
+                    "issues": [{"prop": prop, "rule": "no-return", "sig": "", "msg": format!("the case did not return within {secs} s of CPU time (normal cost of a case: milliseconds): livelock or unbounded work in the code under test")}]})
             });
             if attempt < 50 {
                 let (c, o) = spawn(w, i + jobs as u64, &[], attempt + 1);
@@ -566,7 +573,7 @@ pub fn check_main(scn: &dyn Scenario, prop_arg: &str, opts: &CheckOptions) -> i3
             "simulated_seconds": (sim_ns as f64) / 1e9,
             "runs_per_hour": if wall > 0.0 { (evaluations as f64 / wall * 3600.0) as u64 } else { 0 },
             "determinism": { "cases_rerun_in_another_process": recheck_logs.len(), "mismatches": recheck_mismatch },
-            "workers": { "processes": jobs, "retired_for_arena_leak": retired, "cases_without_return": hung_cases, "case_wall_limit_s": case_limit_s(opts.tier), "timed_out": timed_out, "cpu_seconds": worker_wall, "arena_peak_bytes": arena_peak },
+            "workers": { "processes": jobs, "retired_for_arena_leak": retired, "cases_without_return": hung_cases, "case_cpu_limit_s": case_limit_s(opts.tier), "timed_out": timed_out, "cpu_seconds": worker_wall, "arena_peak_bytes": arena_peak },
             "counters": nest(&counters),
             "violations_by_rule": by_rule,
             "violation_examples": examples,
